@@ -39,6 +39,7 @@ type rsock struct {
 	got  []recvItem
 	seen int // how many of got have been judged
 	last string
+	srcs []string // distinct sources observed, in order
 }
 
 type world struct {
@@ -158,6 +159,13 @@ func (w *world) sock(host, ip string, port int, remote string) *rsock {
 			}
 			rs.got = append(rs.got, recvItem{payload: buf[:k], src: from.String()})
 			rs.last = from.String()
+			known := false
+			for _, x := range rs.srcs {
+				known = known || x == rs.last
+			}
+			if !known {
+				rs.srcs = append(rs.srcs, rs.last)
+			}
 		}
 	})
 	return rs
@@ -213,9 +221,10 @@ var c01topos = []c01topo{
 		w.sock("A1", "", 0, "1.2.3.10:7000")
 		w.sock("A2", "*", 6000, "")
 		w.sock("A2", "#2", 6001, "")
+		w.sock("W1", "", 7001, "") // a second port on the same remote IP
 	}, dests: func(w *world) []string {
 		ext := w.mrouters["lanA"].ips[0]
-		return []string{"1.2.3.10:7000", "1.2.3.20:7000", "1.2.3.21:7000", "10.1.0.50:6000", "10.1.0.51:6000", "10.1.0.52:6001", "1.2.3.10:9999", "8.8.8.8:53",
+		return []string{"1.2.3.10:7000", "1.2.3.10:7001", "1.2.3.20:7000", "1.2.3.21:7000", "10.1.0.50:6000", "10.1.0.51:6000", "10.1.0.52:6001", "1.2.3.10:9999", "8.8.8.8:53",
 			ext + ":6000", ext + ":40000", "127.0.0.1:6000", "1.2.3.31:6000", "1.2.3.30:6000"}
 	}},
 	{name: "root+2lans", build: func(w *world, nat natSpec) {
@@ -366,6 +375,31 @@ func c01plan(topo c01topo, nat natSpec, steps int, senders, destLimit int) *expl
 					v.Msg = fmt.Sprintf("%s nat=%s, plan %v: %s", topo.name, nat, script, v.Msg)
 					viol = v
 					return
+				}
+			}
+			// epilogue: every socket answers every source it has observed, from the address the
+			// original was sent to (its own bound address); the model predicts each reply's fate
+			step := steps
+			for _, r := range w.socks {
+				if r.m.remote != "" || r.m.lip == "0.0.0.0" {
+					continue // a dialled socket answers only its peer; a wildcard socket's source may differ from the address written to
+				}
+				for _, src := range append([]string(nil), r.srcs...) {
+					script = append(script, fmt.Sprintf("reply %s->%s", r.m.name, src))
+					payload := mkPayload(step)
+					f := w.m.send(r.m, src)
+					ua, _ := net.ResolveUDPAddr("udp", src)
+					if _, err := r.conn.WriteTo(append([]byte(nil), payload...), ua); err != nil {
+						viol = &explore.Violation{Sig: "C01 write-failed", Msg: fmt.Sprintf("plan %v: WriteTo returned %v", script, err)}
+						return
+					}
+					zzvsched.WaitQuiet(time.Millisecond)
+					if v := w.judge(step, r, src, payload, f); v != nil {
+						v.Msg = fmt.Sprintf("%s nat=%s, plan %v: %s", topo.name, nat, script, v.Msg)
+						viol = v
+						return
+					}
+					step++
 				}
 			}
 			finished = true
